@@ -104,7 +104,7 @@ func VerifC17_ChangeParam() {
 	g := vNewGov()
 	senders := []sdk.Address{g.a, g.b, g.s, nil}
 	sender := senders[zz.Choice("sender", len(senders))]
-	ki := zz.Choice("key", 7)
+	ki := zz.Choice("key", 8)
 	var key string
 	var val []byte
 	newU := zz.Uint64("newvalue", 0, 1<<62)
@@ -131,6 +131,8 @@ func VerifC17_ChangeParam() {
 			acl.SetOwner(k, g.s)
 		}
 		key, val = "gov/acl/x", g.cdc.MustMarshalJSON(acl)
+	case 7: // a key of a subspace that is not registered: rejected like any key nobody owns, the node keeps running
+		key, val = "bank/SendEnabled", g.cdc.MustMarshalJSON(true)
 	}
 	before := g.raw()
 	ok, crashed := vRun(g, types.MsgChangeParam{FromAddress: sender, ParamKey: key, ParamVal: val})
@@ -228,7 +230,9 @@ func VerifC11_GovHandlers() {
 	senders := []sdk.Address{g.a, g.b, g.s}
 	sender := senders[zz.Choice("sender", 3)]
 	var msg sdk.Msg
-	switch zz.Choice("msg", 4) {
+	switch zz.Choice("msg", 5) {
+	case 4:
+		msg = types.MsgChangeParam{FromAddress: sender, ParamKey: "bank/SendEnabled", ParamVal: g.cdc.MustMarshalJSON(true)}
 	case 0:
 		msg = types.MsgChangeParam{FromAddress: sender, ParamKey: "auth/MaxMemoCharacters", ParamVal: g.cdc.MustMarshalJSON(zz.Uint64("v", 0, 1<<62))}
 	case 1:
@@ -242,6 +246,7 @@ func VerifC11_GovHandlers() {
 	}
 	snap := g.ms.Snapshot()
 	ok, crashed := vRun(g, msg)
+	zz.Assert("C11.gov.process-keeps-running", !crashed)
 	if !ok || crashed {
 		zz.Assert("C11.gov.failed-handler-wrote-nothing", g.ms.Same(snap))
 	}
@@ -277,4 +282,78 @@ func VerifC17_Upgrade() {
 		zz.Assert("C17.upgrade.owner-change-takes-effect", ok && got.Height == up.Height && got.Version == up.Version)
 	}
 	zz.Reach("C17.upgrade")
+}
+
+// VerifC17_DiscardedACLChange: an ACL change (by its rightful owner) executed on a cache-wrapped branch that is then
+// discarded - a simulated or failed transaction - grants nothing: afterwards the stranger it named is still rejected
+// and the rightful owners still are accepted.
+func VerifC17_DiscardedACLChange() {
+	g := vNewGov()
+	acl := types.ACL{}
+	for _, k := range vParamKeys {
+		acl.SetOwner(k, g.s)
+	}
+	branch := *g
+	cctx, _ := g.ctx.CacheContext()
+	branch.ctx = cctx
+	ok, crashed := vRun(&branch, types.MsgChangeParam{FromAddress: g.b, ParamKey: "gov/acl", ParamVal: g.cdc.MustMarshalJSON(acl)})
+	zz.Assert("C17.discarded.acl-change-ran-on-the-branch", ok && !crashed)
+	before := g.raw()
+	// the stranger tries to use what the discarded change would have granted
+	ki := zz.Choice("key", 3)
+	key := []string{"gov/daoOwner", "auth/MaxMemoCharacters", "gov/upgrade"}[ki]
+	val := [][]byte{g.cdc.MustMarshalJSON(g.s), g.cdc.MustMarshalJSON(uint64(99)), g.cdc.MustMarshalJSON(types.Upgrade{Height: 5, Version: "9"})}[ki]
+	ok, crashed = vRun(g, types.MsgChangeParam{FromAddress: g.s, ParamKey: key, ParamVal: val})
+	after := g.raw()
+	same := true
+	for i := range before {
+		same = same && bytes.Equal(before[i], after[i])
+	}
+	zz.Assert("C17.discarded.stranger-still-rejected", !ok && !crashed && same)
+	// and the rightful owner still is the owner
+	ok, _ = vRun(g, types.MsgChangeParam{FromAddress: vOwnerOf(g, key), ParamKey: key, ParamVal: val})
+	zz.Assert("C17.discarded.rightful-owner-still-accepted", ok)
+	zz.Reach("C17.discarded.end")
+}
+
+// VerifC17_ExportImport: the governance state (ACL, DAO owner, upgrade plan) survives a genesis export and a start
+// from that genesis unchanged - no parameter changes without a governance message.
+func VerifC17_ExportImport() {
+	a := vNewGov()
+	up := types.Upgrade{Height: zz.Int64("height", 1, 1<<40), Version: "3.1.4"}
+	ok, crashed := vRun(a, types.MsgUpgrade{Address: a.b, Upgrade: up})
+	zz.Assert("C17.export.setup", ok && !crashed)
+	gs := a.k.ExportGenesis(a.ctx)
+	b := vNewGov()
+	b.k.InitGenesis(b.ctx, gs)
+	ra, rb := a.raw(), b.raw()
+	for i, k := range vParamKeys {
+		if len(k) > 4 && k[:4] == "gov/" {
+			zz.Assert("C17.export.governance-parameter-survives", bytes.Equal(ra[i], rb[i]))
+		}
+	}
+	got := b.k.GetUpgrade(b.ctx)
+	zz.Assert("C17.export.upgrade-plan-survives", got.Height == up.Height && got.Version == up.Version)
+	zz.Reach("C17.export.end")
+}
+
+// VerifC03_GovFees: every governance message type has a base fee on record (the table the ante handler multiplies),
+// and the message reports exactly that fee.
+func VerifC03_GovFees() {
+	g := vNewGov()
+	msgs := []sdk.Msg{
+		types.MsgChangeParam{FromAddress: g.b, ParamKey: "gov/upgrade", ParamVal: []byte("x")},
+		types.MsgDAOTransfer{FromAddress: g.b, ToAddress: g.s, Amount: sdk.NewInt(1), Action: types.DAOTransferString},
+		types.MsgDAOTransfer{FromAddress: g.b, Amount: sdk.NewInt(1), Action: types.DAOBurnString},
+		types.MsgUpgrade{Address: g.b, Upgrade: types.Upgrade{Height: 5, Version: "1"}},
+	}
+	want := []int64{types.MsgChangeParamFee, types.DAOTransferFee, types.DAOTransferFee, types.MsgUpgradeFee}
+	i := zz.Choice("msg", len(msgs))
+	fee, listed := types.GovFeeMap[msgs[i].Type()]
+	zz.Assert("C03.govfees.message-type-has-a-base-fee", listed && fee == want[i])
+	zz.Assert("C03.govfees.message-reports-its-base-fee", msgs[i].GetFee().Equal(sdk.NewInt(want[i])))
+	mult := zz.Int64("multiplier", 0, 1000)
+	fm := authtypes.FeeMultipliers{FeeMultis: []authtypes.FeeMultiplier{{Key: msgs[i].Type(), Multiplier: mult}}, Default: 1}
+	zz.Assert("C03.govfees.required-fee", fm.GetFee(msgs[i]).Equal(sdk.NewInt(want[i]).Mul(sdk.NewInt(mult))))
+	zz.Reach("C03.govfees.end")
 }
